@@ -102,15 +102,17 @@ theorem groupBy_mem {κ α} [DecidableEq κ] (key : α → κ) (l : List α) :
 /-! ### the invariant of the candidate enumeration -/
 
 /-- what every (partial) candidate tuple of length `len` satisfies: every entry is a valid position of the near
-    list, carries the element of the corresponding pattern atom, and reproduces every pairwise pattern distance
-    (the code's `math.isclose(√p_ss, √s_ss, abs_tol=atol)`, sqrt-free) -/
+    list, carries the element of the corresponding pattern atom, reproduces every pairwise pattern distance
+    (the code's `math.isclose(√p_ss, √s_ss, abs_tol=atol)`, sqrt-free), and no two entries are (images of) the same
+    unit-cell atom (`nearUc` = `near_indices[·] % len(structure)`) -/
 def CandOK (pp : List Vec3) (pelems : List String) (atol : Rat) (nearPos : Nat → Vec3) (nearElem : Nat → String)
-    (L : Nat) (len : Nat) (c : List Nat) : Prop :=
+    (nearUc : Nat → Nat) (L : Nat) (len : Nat) (c : List Nat) : Prop :=
   c.length = len ∧
   (∀ k, k < len → c.getD k 0 < L ∧ nearElem (c.getD k 0) = pelems.getD k "") ∧
   (∀ k, k < len → ∀ j, j < k →
      iscloseSqrt (distSq (pp.getD k Vec3.zero) (pp.getD j Vec3.zero))
-                 (distSq (nearPos (c.getD j 0)) (nearPos (c.getD k 0))) atol = true)
+                 (distSq (nearPos (c.getD j 0)) (nearPos (c.getD k 0))) atol = true) ∧
+  (∀ k, k < len → ∀ j, j < k → nearUc (c.getD j 0) ≠ nearUc (c.getD k 0))
 
 theorem getD_append_lt (c : List Nat) (x k : Nat) (h : k < c.length) : (c ++ [x]).getD k 0 = c.getD k 0 := by
   rw [List.getD_eq_getElem?_getD, List.getElem?_append_left h, ← List.getD_eq_getElem?_getD]
@@ -120,11 +122,11 @@ theorem getD_append_eq (c : List Nat) (x : Nat) : (c ++ [x]).getD c.length 0 = x
 
 /-- one extension round keeps the invariant and adds one atom -/
 theorem extendRound_ok (pp : List Vec3) (pelems : List String) (atol : Rat) (nearPos : Nat → Vec3)
-    (nearElem : Nat → String) (L i : Nat) (nearby : List Nat) (partials : List (List Nat))
+    (nearElem : Nat → String) (nearUc : Nat → Nat) (L i : Nat) (nearby : List Nat) (partials : List (List Nat))
     (hnear : ∀ k ∈ nearby, k < L)
-    (hp : ∀ c ∈ partials, CandOK pp pelems atol nearPos nearElem L i c) :
-    ∀ c ∈ extendRound pp (pelems.getD i "") i atol nearPos nearElem nearby partials,
-      CandOK pp pelems atol nearPos nearElem L (i + 1) c := by
+    (hp : ∀ c ∈ partials, CandOK pp pelems atol nearPos nearElem nearUc L i c) :
+    ∀ c ∈ extendRound pp (pelems.getD i "") i atol nearPos nearElem nearUc nearby partials,
+      CandOK pp pelems atol nearPos nearElem nearUc L (i + 1) c := by
   intro c hc
   unfold extendRound at hc
   obtain ⟨mt, hmt, hc⟩ := List.mem_flatMap.mp hc
@@ -133,10 +135,11 @@ theorem extendRound_ok (pp : List Vec3) (pelems : List String) (atol : Rat) (nea
   case isFalse => cases hc
   case isTrue hcond =>
   cases hc
-  obtain ⟨hlen, hel, hdist⟩ := hp mt hmt
-  simp only [Bool.and_eq_true, decide_eq_true_eq, List.all_eq_true, List.mem_range] at hcond
-  obtain ⟨helem, hd⟩ := hcond
-  refine ⟨by simp [hlen], ?_, ?_⟩
+  obtain ⟨hlen, hel, hdist, hdis⟩ := hp mt hmt
+  simp only [Bool.and_eq_true, decide_eq_true_eq, List.all_eq_true, List.mem_range, Bool.not_eq_true',
+    List.contains_eq_mem, decide_eq_false_iff_not, List.mem_map, not_exists, not_and] at hcond
+  obtain ⟨⟨helem, hnew⟩, hd⟩ := hcond
+  refine ⟨by simp [hlen], ?_, ?_, ?_⟩
   · intro k hk
     by_cases hki : k < i
     · rw [getD_append_lt _ _ _ (by omega)]; exact hel k hki
@@ -152,37 +155,47 @@ theorem extendRound_ok (pp : List Vec3) (pelems : List String) (atol : Rat) (nea
       have hji : j < i := by omega
       rw [hk', getD_append_eq, getD_append_lt _ _ _ (by omega), hlen]
       exact hd j hji
+  · intro k hk j hj
+    by_cases hki : k < i
+    · rw [getD_append_lt _ _ _ (by omega), getD_append_lt _ _ _ (by omega)]
+      exact hdis k hki j hj
+    · have hk' : k = mt.length := by omega
+      have hji : j < mt.length := by omega
+      rw [hk', getD_append_eq, getD_append_lt _ _ _ hji]
+      have hmem : mt.getD j 0 ∈ mt := by
+        rw [List.getD_eq_getElem?_getD, List.getElem?_eq_getElem hji]; simp
+      exact hnew (mt.getD j 0) hmem
 
 theorem foldl_extend_ok (pp : List Vec3) (pelems : List String) (atol : Rat) (nearPos : Nat → Vec3)
-    (nearElem : Nat → String) (L : Nat) (nearby : List Nat) (init : List (List Nat))
+    (nearElem : Nat → String) (nearUc : Nat → Nat) (L : Nat) (nearby : List Nat) (init : List (List Nat))
     (hnear : ∀ k ∈ nearby, k < L)
-    (h0 : ∀ c ∈ init, CandOK pp pelems atol nearPos nearElem L 1 c) (r : Nat) :
+    (h0 : ∀ c ∈ init, CandOK pp pelems atol nearPos nearElem nearUc L 1 c) (r : Nat) :
     ∀ c ∈ (List.range r).foldl
-        (fun partials r => extendRound pp (pelems.getD (r + 1) "") (r + 1) atol nearPos nearElem nearby partials) init,
-      CandOK pp pelems atol nearPos nearElem L (r + 1) c := by
+        (fun partials r => extendRound pp (pelems.getD (r + 1) "") (r + 1) atol nearPos nearElem nearUc nearby partials) init,
+      CandOK pp pelems atol nearPos nearElem nearUc L (r + 1) c := by
   induction r with
   | zero => simpa using h0
   | succ r ih =>
     rw [List.range_succ, List.foldl_append]
     simp only [List.foldl_cons, List.foldl_nil]
-    exact extendRound_ok pp pelems atol nearPos nearElem L (r + 1) nearby _ hnear ih
+    exact extendRound_ok pp pelems atol nearPos nearElem nearUc L (r + 1) nearby _ hnear ih
 
 /-- **candidates_shape.** Every candidate tuple has the length of the pattern (≥ 1 atom); each entry is a valid
-    position of the near list, of the element of the corresponding pattern atom, and the tuple reproduces all
-    pairwise pattern distances within the tolerance. -/
+    position of the near list, of the element of the corresponding pattern atom, the tuple reproduces all
+    pairwise pattern distances within the tolerance, and its entries are pairwise different unit-cell atoms. -/
 theorem candidates_shape (pp : List Vec3) (pelems : List String) (atol m : Rat) (nStruct : Nat)
-    (nearPosL : List Vec3) (nearElemL : List String) (hlen : nearPosL.length = nearElemL.length)
+    (nearPosL : List Vec3) (nearElemL : List String) (nearUcL : List Nat) (hlen : nearPosL.length = nearElemL.length)
     (hpp : 0 < pp.length) :
-    ∀ c ∈ candidates pp pelems atol m nStruct nearPosL nearElemL,
+    ∀ c ∈ candidates pp pelems atol m nStruct nearPosL nearElemL nearUcL,
       CandOK pp pelems atol (fun k => nearPosL.getD k Vec3.zero) (fun k => nearElemL.getD k "")
-        nearElemL.length pp.length c := by
+        (fun k => nearUcL.getD k 0) nearElemL.length pp.length c := by
   intro c hc
   unfold candidates at hc
   simp only at hc
   obtain ⟨a, ha, hc⟩ := List.mem_flatMap.mp hc
   have hppl : pp.length = (pp.length - 1) + 1 := by omega
   rw [hppl]
-  refine foldl_extend_ok pp pelems atol _ _ nearElemL.length _ [[a]] ?_ ?_ (pp.length - 1) c hc
+  refine foldl_extend_ok pp pelems atol _ _ _ nearElemL.length _ [[a]] ?_ ?_ (pp.length - 1) c hc
   · intro k hk
     obtain ⟨hk, -⟩ := List.mem_filter.mp hk
     obtain ⟨⟨v, k'⟩, hmem, rfl⟩ := List.mem_map.mp hk
@@ -194,12 +207,13 @@ theorem candidates_shape (pp : List Vec3) (pelems : List String) (atol m : Rat) 
     subst hc
     obtain ⟨har, hae⟩ := List.mem_filter.mp ha
     simp only [List.mem_range, decide_eq_true_eq] at har hae
-    refine ⟨rfl, ?_, ?_⟩
+    refine ⟨rfl, ?_, ?_, ?_⟩
     · intro k hk
       have : k = 0 := by omega
       subst this
       simp only [List.getD_cons_zero]
       exact ⟨by omega, hae⟩
+    · intro k hk j hj; omega
     · intro k hk j hj; omega
 
 /-! ### the pieces of `findGroups` / `find`, named; decomposition of a reported match -/
@@ -210,8 +224,9 @@ def FindInput.allPos (inp : FindInput) : List Vec3 := allPositions inp.cell inp.
 def FindInput.near (inp : FindInput) : List Nat := nearIndices inp.cell inp.allPos inp.maxSq inp.atol
 def FindInput.nearPosL (inp : FindInput) : List Vec3 := inp.near.map (fun i => inp.allPos.getD i Vec3.zero)
 def FindInput.nearElemL (inp : FindInput) : List String := inp.near.map (fun i => inp.elems.getD (i % inp.pos.length) "")
+def FindInput.nearUcL (inp : FindInput) : List Nat := inp.near.map (fun i => i % inp.pos.length)
 def FindInput.cands (inp : FindInput) : List (List Nat) :=
-  candidates inp.ppos inp.pelems inp.atol inp.maxSq inp.pos.length inp.nearPosL inp.nearElemL
+  candidates inp.ppos inp.pelems inp.atol inp.maxSq inp.pos.length inp.nearPosL inp.nearElemL inp.nearUcL
 def FindInput.candsAll (inp : FindInput) : List (List Nat) := inp.cands.map (fun t => t.map (fun k => inp.near.getD k 0))
 def FindInput.grouped (inp : FindInput) : List (List Nat × List (List Nat)) :=
   groupBy (fun t : List Nat => sortNat (t.map (· % inp.pos.length))) inp.candsAll
@@ -334,7 +349,7 @@ theorem find_witness (inp : FindInput) (ax1 : Nat) (oracle : Nat → Nat → Qua
     (hpp : 0 < inp.ppos.length) (m : Match) (hm : m ∈ find inp ax1 oracle choose) :
     ∃ gi i c,
       CandOK inp.ppos inp.pelems inp.atol (fun k => inp.nearPosL.getD k Vec3.zero) (fun k => inp.nearElemL.getD k "")
-        inp.near.length inp.ppos.length c ∧
+        (fun k => inp.nearUcL.getD k 0) inp.near.length inp.ppos.length c ∧
       goodCheck inp.ppos ax1 inp.atol (candQuat oracle gi i (c.map (fun k => inp.near.getD k 0)))
         ((c.map (fun k => inp.near.getD k 0)).map (fun k => inp.allPos.getD k Vec3.zero)) = true ∧
       m = mkMatch inp oracle gi i (c.map (fun k => inp.near.getD k 0)) := by
@@ -344,7 +359,7 @@ theorem find_witness (inp : FindInput) (ax1 : Nat) (oracle : Nat → Nat → Qua
     rw [List.getD_eq_getElem?_getD, List.getElem?_eq_getElem hi]; simp
   have hall : kg.2.getD i [] ∈ inp.candsAll := groupBy_mem _ _ kg hkgmem _ htmem
   obtain ⟨c, hc, hct⟩ := List.mem_map.mp hall
-  have hshape := candidates_shape inp.ppos inp.pelems inp.atol inp.maxSq inp.pos.length inp.nearPosL inp.nearElemL
+  have hshape := candidates_shape inp.ppos inp.pelems inp.atol inp.maxSq inp.pos.length inp.nearPosL inp.nearElemL inp.nearUcL
     (by simp [FindInput.nearPosL, FindInput.nearElemL]) hpp c hc
   have hL : inp.nearElemL.length = inp.near.length := by simp [FindInput.nearElemL]
   rw [hL] at hshape
